@@ -20,7 +20,10 @@ use std::sync::Arc;
 use std::time::{Duration, Instant};
 
 #[derive(Clone, Debug, PartialEq)]
-pub enum Failure { None, Logp { chain: u64, eval: u64 }, MathCtor { chain: u64 }, Init { chain: u64 }, Storage { chain: u64, record: u64 }, RecoverableOnly { chain: u64, period: u64 }, InitRecoverable { chain: u64, n: u64 }, InitAllRejected { chain: u64 } }
+pub enum Failure { None, Logp { chain: u64, eval: u64 }, MathCtor { chain: u64 }, Init { chain: u64 }, Storage { chain: u64, record: u64 }, RecoverableOnly { chain: u64, period: u64 }, InitRecoverable { chain: u64, n: u64 }, InitAllRejected { chain: u64 },
+    /// even chains: a recoverable error at every `period`-th evaluation below `x`; odd chains: at every `period`-th evaluation from `x` on
+    /// (divergence counts that differ between chains AND between warmup and sampling)
+    Split { x: u64, period: u64 } }
 
 #[derive(Clone)]
 pub struct TModel { pub dim: usize, pub seed: u64, pub failure: Failure, pub slow_chain: Option<u64> }
@@ -51,6 +54,7 @@ impl Model for TModel {
                 Failure::Init { chain: fc } if *fc == c => t.periodic = Some((1, FaultKind::Unrecoverable)),
                 // the first `n` density evaluations of the chain fail recoverably: the first initial points are rejected, a later one is fine
                 Failure::InitRecoverable { chain: fc, n } if *fc == c || *fc == u64::MAX => t = t.with_faults((0..*n).map(|k| (k, FaultKind::Recoverable)).collect()),
+                Failure::Split { x, period } => t = t.with_faults(if c % 2 == 0 { (8..*x).step_by(*period as usize).map(|k| (k, FaultKind::Recoverable)).collect() } else { (*x..*x + 4000).step_by(*period as usize).map(|k| (k, FaultKind::Recoverable)).collect() }),
                 // every evaluation fails recoverably: all 500 initial points are rejected
                 Failure::InitAllRejected { chain: fc } if *fc == c => t.periodic = Some((1, FaultKind::Recoverable)),
                 Failure::RecoverableOnly { chain: fc, period } if *fc == c || *fc == u64::MAX => t.periodic = Some((*period, FaultKind::Recoverable)),
@@ -143,7 +147,7 @@ macro_rules! with_settings {
     };
 }
 
-pub struct RunOut { pub fault_evals: u64, pub result: String, pub traces: Option<Vec<(BTreeMap<String, Vec<Cell>>, BTreeMap<String, Vec<Cell>>)>>, pub events: Vec<(u64, u8, u64)>, pub pause_obs: Vec<(Vec<usize>, Vec<usize>, Vec<usize>, usize)>, pub final_progress: Option<Vec<(usize, usize, usize, usize)>>, pub snapshots: Vec<Vec<Snap>>, pub hang: bool, pub api_errors: Vec<String> }
+pub struct RunOut { pub fault_evals: u64, pub result: String, pub traces: Option<Vec<(BTreeMap<String, Vec<Cell>>, BTreeMap<String, Vec<Cell>>)>>, pub events: Vec<(u64, u8, u64)>, pub pause_obs: Vec<(Vec<usize>, Vec<usize>, Vec<usize>, usize, Vec<bool>)>, pub final_progress: Option<Vec<(usize, usize, usize, usize)>>, pub snapshots: Vec<Vec<Snap>>, pub hang: bool, pub api_errors: Vec<String> }
 
 static RUN_LOCK: std::sync::Mutex<()> = std::sync::Mutex::new(());
 
@@ -178,12 +182,14 @@ where S: Settings + 'static, SC: StorageConfig + 'static, <SC::Storage as TraceS
                 std::thread::sleep(Duration::from_micros(*delay));
                 let r: Result<(), String> = match op {
                     0 => { let r = sampler.pause().map_err(|e| format!("{e:#}")); if r.is_ok() {
-                            let p0: Vec<usize> = sampler.progress().map(|p| p.iter().map(|c| c.finished_draws).collect()).unwrap_or_default();
+                            let pr0 = sampler.progress().unwrap_or_default();
+                            let p0: Vec<usize> = pr0.iter().map(|c| c.finished_draws).collect();
+                            let started0: Vec<bool> = pr0.iter().map(|c| c.started).collect();
                             std::thread::sleep(Duration::from_millis(25));
                             let p1: Vec<usize> = sampler.progress().map(|p| p.iter().map(|c| c.finished_draws).collect()).unwrap_or_default();
                             std::thread::sleep(Duration::from_millis(25));
                             let p2: Vec<usize> = sampler.progress().map(|p| p.iter().map(|c| c.finished_draws).collect()).unwrap_or_default();
-                            out.pause_obs.push((p0, p1, p2, outstanding)); } outstanding += 1; r }
+                            out.pause_obs.push((p0, p1, p2, outstanding, started0)); } outstanding += 1; r }
                     1 => { outstanding += 1; sampler.resume().map_err(|e| format!("{e:#}")) }
                     2 => sampler.progress().map(|p| out.snapshots.push(snap(&p))).map_err(|e| format!("{e:#}")),
                     3 => sampler.flush().map_err(|e| format!("{e:#}")),
@@ -267,6 +273,12 @@ pub fn gen_cfg(seed: u64, case: u64, tier: &str, mode: u8) -> Cfg {
     // corpus: more chains than workers and an immediate pause/resume (pause/pause/resume), so that chains which have not been picked up by a
     // worker hold the commands in their mailbox when they start (seeded change C11-resume-skips-unstarted is schedule dependent otherwise)
     let (mut num_chains, mut num_cores) = (num_chains, num_cores);
+    // corpus: one-draw chains, four of them on one worker, paused at once: the running chain finishes during the pause and frees the worker,
+    // the next chain starts while the sampler is paused (seeded change C12-first-poll-skipped)
+    if mode == 2 && (case == 5 || case == 6) {
+        num_chains = 4; num_cores = 1; num_tune = 0; num_draws = if case == 5 { 1 } else { 2 };
+        script = vec![(0, 0), (1, 20000)];
+    }
     if (mode == 1 || mode == 2) && (case == 3 || case == 4) {
         num_chains = 4; num_cores = 1; num_tune = 20; num_draws = 10;
         script = if case == 3 { vec![(0, 0), (1, 0)] } else { vec![(0, 0), (0, 200), (1, 300)] };
@@ -375,8 +387,13 @@ pub fn check_case(cfg: &Cfg, mode: u8, case: u64, cases: &mut Cases, rep: &mut R
         if !want.is_empty() { rep.hit("progress.divergences_checked"); }
     } }
     // pause bound
-    for (p0, p1, p2, outstanding) in &out.pause_obs {
+    for (p0, p1, p2, outstanding, started0) in &out.pause_obs {
         for c in 0..p0.len().min(p1.len()).min(p2.len()) {
+            // a chain that had not started when pause() returned finds the Pause in its mailbox before its first draw: it records nothing while
+            // paused (one draw per command queued BEFORE this pause at most)
+            if started0.get(c) == Some(&false) { for (label, p) in [("25 ms", p1), ("50 ms", p2)] {
+                if p[c] > *outstanding { rep.violation("ctl.unstarted_chain_drew_while_paused", &format!("chain {c} had not started when pause() returned but recorded {} draws within {label} ({} commands were sent before the pause)", p[c], outstanding), replay.clone()); break; }
+            } }
             // A chain may still hold every command sent so far in its mailbox (a chain that has not been picked up by a worker holds them
             // all): each queued command lets it record at most one more draw (theorem pause_bound), whenever it gets to run. So the sound,
             // schedule-independent statement is a bound on the TOTAL recorded after pause() returned, at both later observation points.
